@@ -653,6 +653,10 @@ def signal_case(rng):
     rest = []
     while len(rest) < 12 * n:
         rest += [rng.randrange(n)] * rng.randint(1, 5)
+    if rng.random() < 0.35:
+        # the body is over and giveLocks has released m of the locks when the signal comes (D12i)
+        m = rng.randint(0, len(procs[0].get("path", [0])) - 1)
+        pre = pre + [0] + [0] * (4 * m)
     rest = pre + [-1] + rest
     if rng.random() < 0.3:
         rest.insert(rng.randint(0, len(rest)), -rng.randint(1, n))
@@ -679,6 +683,30 @@ def admin_case(rng):
     if rng.random() < 0.3:
         sched += [G.EV_CLEAR, G.EV_LIST]
     return {"procs": procs, "stale": [[gk, 9]], "sched": sched, "src": "admin"}
+
+
+def acq_signal_case(rng):
+    """D12h: a command that has taken its locks on the earlier stacks of its path is interrupted during takeLocks — between
+    two stacks, or in the retry wait for a contended later stack — and must leave nothing behind: a reader of the first
+    stack, started afterwards, gets its lock"""
+    nd = rng.choice([2, 2, 3])
+    last = nd - 1
+    ykind = rng.choice("EEES")
+    procs = [P("E", explicit=rng.random() < 0.8), P(ykind, tries=rng.choice([1, 2, 3]), explicit=rng.random() < 0.8, user=pick_user(rng)),
+             P(rng.choice("SSE"), user=pick_user(rng))]
+    procs[0]["path"] = [last]                     # X holds the last stack
+    procs[1]["path"] = list(range(nd))            # Y wants them all, in order
+    procs[2]["path"] = [0]                        # Z comes afterwards, for the first one
+    sched = [0, 0, 0]
+    where = rng.choice(["between", "wait", "wait", "wait2"])
+    took = rng.randint(1, last) if where == "between" else last       # stacks Y has locked when the signal comes
+    sched += [1] * (3 * took)
+    if where != "between":
+        per = 3 if ykind == "E" else 0            # an exclusive request is turned away at the gate: mkdir, listing, listing
+        sched += [1] * (per * (2 if where == "wait2" else 1))
+    sched += [-2] + [1] * (4 * took + rng.choice([0, 2])) + [2] * 5 + [0] * 6 + [2] * 6
+    c = {"procs": procs, "sched": sched, "ndirs": nd, "src": "acqsignal", "signal": rng.choice(["INT", "INT", "TERM"])}
+    return c
 
 
 def name_cases():
@@ -826,7 +854,17 @@ def evaluate(ctx, cases):
         if any(t[1] == "signal" for t in r["trace"]):
             ctx.hist("with_signal=" + c.get("signal", "TERM"))
             if any(t[1] == "signal" and t[2] == "delivered" for t in r["trace"]):
-                ctx.hist("signal_delivered_in_body")
+                ctx.hist("signal_delivered_in_body" if len(r.get("acq_signals") or []) + len(r.get("rel_signals") or []) <
+                         sum(1 for t in r["trace"] if t[1] == "signal" and t[2] == "delivered") else "signal_delivered_outside_bodies_only")
+            for i in r.get("rel_signals") or []:
+                ctx.hist("signal_delivered_inside_giveLocks")
+                if any(t[0] == i and t[1].startswith("rmdir") for t in r["trace"][:[k for k, t in enumerate(r["trace"]) if t[0] == i and t[1] == "signal"][0]]):
+                    ctx.hist("signal_inside_giveLocks_between_two_locks")
+            for i in r.get("acq_signals") or []:
+                ctx.hist("signal_delivered_during_takeLocks")
+                held_before = any(t[0] == i and t[1].startswith("create") and t[2] == "ok" for t in r["trace"])
+                if held_before and len(c["procs"][i].get("path", [0])) > 1:
+                    ctx.hist("signal_during_takeLocks_with_earlier_stacks_locked")
         names = {p.get("user") for p in c["procs"]}
         if names != {None}:
             ctx.hist("with_login_names")
@@ -963,6 +1001,7 @@ def generated(ctx, sizes, three_limit):
             [random_case(ctx.rng, 2) for _ in range(r2)], [phase_case(ctx.rng) for _ in range(nphase)],
             [path_case(ctx.rng) for _ in range(npath)], [signal_case(ctx.rng) for _ in range(nsig)],
             [admin_case(ctx.rng) for _ in range(max(20, nsig // 3))],
+            [acq_signal_case(ctx.rng) for _ in range(max(40, nsig // 2))],
             cmd_cases(ctx.rng, ncmd)]
 
 
@@ -1005,6 +1044,10 @@ def run(ctx):
         raise common.InfraError("no case of this run had a stale lock cleared by `eups admin clearLocks`")
     if not ctx.histogram.get("sigkill=killed"):
         raise common.InfraError("no locker was killed outright in this run")
+    if not ctx.histogram.get("signal_during_takeLocks_with_earlier_stacks_locked"):
+        raise common.InfraError("no command of this run was interrupted during takeLocks with locks on earlier stacks already taken")
+    if not ctx.histogram.get("signal_delivered_inside_giveLocks") or not ctx.histogram.get("signal_inside_giveLocks_between_two_locks"):
+        raise common.InfraError("no command of this run was interrupted inside giveLocks (at its start and between two locks)")
     if not ctx.histogram.get("signal_delivered_in_body"):
         raise common.InfraError("no signal was delivered to a command body in this run")
     for ev in ("request_withdrawn", "retry_after_withdrawal", "create_found_directory_removed", "retry_after_directory_removed",
